@@ -31,6 +31,13 @@ def mbox_cases(rng, n):
     for _ in range(n):
         name = "".join(rng.choice(alphabet) for _ in range(rng.randint(0, 20)))
         cases.append(f"mbox\t{name_field(name)}\t{hexs(rng.choice(ADDRS))}")
+    # every mailbox header (From, Sender, Cc, Bcc, Reply-To; To is the default above): the same wire-form checks
+    for hk in "fscbr":
+        for name in NAMES:
+            cases.append(f"mbox\t{name_field(name)}\t{hexs(rng.choice(ADDRS))}\t{hk}")
+        for _ in range(max(10, n // 20)):
+            name = "".join(rng.choice(alphabet) for _ in range(rng.randint(0, 60)))
+            cases.append(f"mbox\t{name_field(name)}\t{hexs(rng.choice(ADDRS))}\t{hk}")
     return cases
 
 
